@@ -19,7 +19,8 @@ ROOT = os.path.dirname(os.path.dirname(os.path.abspath(__file__)))
 COQ = os.environ.get("VERIF_COQ_DIR", os.path.join(ROOT, "coq"))
 BUILD = os.path.join(ROOT, "build")
 PROBES = os.environ.get("VERIF_PROBES_DIR", os.path.join(BUILD, "probes"))
-PROBE_TARGET = os.path.join(BUILD, "probe-target")
+PROBE_TARGET = (os.path.join(os.path.dirname(PROBES), "probe-target") if os.environ.get("VERIF_PROBES_DIR")
+                else os.path.join(BUILD, "probe-target"))
 EXTRACT = os.path.join(ROOT, "tools", "extract_facts.py")
 
 
